@@ -93,6 +93,11 @@ CLAIMED = {
   "Trusted: Lean kernel + standard axioms; translator (both tables, formatter shapes); Python re modelled on the fragment; the pattern-level composition rests on the correspondence and the oracle. Week 53 under WW/0W/UU/0U: known finding F-C02-week53.",
   "Lean 4 proof per part over regenerated tables (decide +kernel on whole domains, induction on digit lists) + correspondence + round-trip oracle",
   "DESIGN.md section 7, C02"),
+ "C20": (
+  "PARTIAL. Lean 4 theorems C20_* (23) about the legacy engine over the REGENERATED v1 tables (incl. the run-time composite initialisation, C20_composite_init): per-part table tie as in C02 (finite domains kernel-evaluated through the real format path, unbounded parts by the maximal-munch lemmas, tags), dispatch consistency (C20_dispatch: has_v1_part <-> not is_new_pattern for patterns of documented parts and brace-free text, with the {foo} witness), {pycalver} strictness on the record (YYYYMM never moves back, id grows numerically and lexically: C20_pycalver_strict/_release_tuple/_string/_chain), and strict increase through the gate (C20_gate_greater, C20_test_greater). The composition of parts over whole patterns is validated: ops v1_compile_search/v1_parse/v1_format/v1_incr/dispatch/v1_gate/v1_cli_test, render->parse->re-render oracle, chains of 150 (quick) / 1,000 (thorough) bumps, dispatch spied on incr_dispatch/_is_valid_version/_parse_config, real `bumpver update` on legacy projects.",
+  "Trusted: Lean kernel + standard axioms; translator (v1 tables, pep440 map from the AST); regex fragment (the empty-iteration nuance of mRep is documented); rough-edge parts are known findings F-C20-dom-short/-doy-short/-padded-bid/-week-parts/-dispatch.",
+  "Lean 4 proof per part and on the version record over regenerated tables + correspondence + chain oracle",
+  "DESIGN.md section 7, C20"),
 }
 
 PENDING_REASON = "not yet covered: model/theorems for this property are still being built (see DESIGN.md section 10 for the order of work); no check is claimed until its theorems are proved and tied to the code"
